@@ -1,5 +1,6 @@
 import SerfModel.Check.Core
 import SerfModel.Model.QueryRoute
+import SerfModel.Gen.QueryLocks
 /-!
 C07 checker.  One real node per case; query objects are numbered in creation order.
 
@@ -12,11 +13,15 @@ C07 checker.  One real node per case; query objects are numbered in creation ord
   `replyto <obj> <from> <ack> <tag>`     the same, addressed with the time and id of object <obj> → `ok`
   `close <obj>`                          hook `VerifCloseQuery` = body of the timer closure → `ok`
   `sleep`                                wait until every `short` timer has fired → `ok`
+  `race <rounds>`                        free-running: per round a fresh query; one goroutine delivers acks/responses
+        of distinct senders (through `Delegate.NotifyMsg`), another calls the public
+        `QueryResponse.Close()` at a varying moment → `ok` | `panic:<msg>` | `dup:<what>`
   `drain <obj>`                          read what is in `AckCh()` / `ResponseCh()` without blocking
         → `a=<from,…> r=<from:tag,…> closed=<a><r>` (`-` = nothing; closed digits: the channel reported closed;
            an absent ack channel counts as `-` / `x`)
 
-MODEL: `QueryRoute.act` — a reply is `arrive` followed by four `replyStep`s (the
+MODEL: `QueryRoute.act` — a reply is `arrive` followed by `replyStep`s to completion, at the granularity the
+regenerated lock shapes (`Gen.QueryLocks`) give (the
 harness cannot interleave the timer with the steps of a reply; those schedules are
 covered by the theorems only).
 
@@ -52,6 +57,9 @@ structure St where
   deriving Inhabited
 
 def bool? (s : String) : Option Bool := if s == "1" then some true else if s == "0" then some false else none
+
+/-- the model's actions, at the granularity the regenerated lock shapes give -/
+def act (s : Sys) (a : Action) : Sys := QueryRoute.act Gen.QueryLocks.shapes s a
 
 def runActs (s : Sys) (as : List Action) : Sys := as.foldl act s
 
@@ -127,7 +135,7 @@ def stepOp (s : St) (op : List String) (impl : String) : LineOut St :=
     match lt.toNat?, id.toNat?, stringOfHex? from_, bool? ack, tag.toNat? with
     | some lt, some id, some sender, some ack, some tag =>
       let r : Reply := ⟨lt, id, sender, ack, tag⟩
-      let sys := runActs s.sys [.arrive r, .replyStep, .replyStep, .replyStep, .replyStep]
+      let sys := runActs s.sys [.arrive r, .replyStep, .replyStep, .replyStep, .replyStep, .replyStep]
       -- monitor: the reply is eligible for the object currently registered under its time (the newest open one) if ids match
       let mon := s.mon.map fun o => if o.lt == lt && o.id == id && !o.closed && !o.past then { o with eligible := o.eligible ++ [r] } else o
       { state := { s with sys := sys, mon := mon }, model := some "ok" }
@@ -138,11 +146,20 @@ def stepOp (s : St) (op : List String) (impl : String) : LineOut St :=
       match s.mon[i]? with
       | some o0 =>
         let r : Reply := ⟨o0.lt, o0.id, sender, ack, tag⟩
-        let sys := runActs s.sys [.arrive r, .replyStep, .replyStep, .replyStep, .replyStep]
+        let sys := runActs s.sys [.arrive r, .replyStep, .replyStep, .replyStep, .replyStep, .replyStep]
         let mon := s.mon.map fun o => if o.lt == r.lt && o.id == r.id && !o.closed && !o.past then { o with eligible := o.eligible ++ [r] } else o
         { state := { s with sys := sys, mon := mon }, model := some "ok" }
       | none => { state := s, model := some "bad-op" }
     | _, _, _, _ => { state := s, model := some "bad-op" }
+  | ["race", _rounds] =>
+    -- free-running: replies delivered by one goroutine while another calls the public Close(); nothing may be
+    -- sent on a closed stream (Go: panic "send on closed channel"), no sender twice on a stream
+    let mon : Option (String × String) :=
+      if impl == "ok" then none
+      else if impl.startsWith "panic" then some ("send-after-close", impl)
+      else if impl.startsWith "dup" then some ("duplicate-in-race", impl)
+      else some ("malformed", impl)
+    { state := s, model := some "ok", monitor := mon }
   | ["close", i] =>
     match i.toNat? with
     | some i =>
